@@ -19,6 +19,16 @@ def bpEstimate (winner loser _other total : Nat) : Float :=
   let margin := p * (q * q)
   1.0 / margin
 
+/-- a difficulty value as the float Python holds (`np.inf` for `inf`) -/
+def toF : Diff Float → Float
+  | Diff.fin d => d
+  | Diff.inf => 1.0 / 0.0
+
+/-- raire.py L160 `agap > 0 and lowerbound > 0 and max_on_frontier-lowerbound <= agap` on IEEE doubles
+(`lowerbound` here is never the sentinel -10: `gapExit` handles that case) -/
+def gapTest (agap : Float) (mx lb : Diff Float) : Bool :=
+  decide (agap > 0) && decide (toF lb > 0) && decide (toF mx - toF lb ≤ agap)
+
 def ltStrs : List String → List String → Bool
   | [], [] => false
   | [], _ :: _ => true
@@ -72,7 +82,11 @@ def handle (op : String) (a : Json) : R Json := do
         | "bp" => pure bpEstimate
         | s => throw s!"unknown asn {s}"
       let C : Contest String := { candidates := cands, totBallots := tot, outcome := outcome }
-      match computeRaireAssertions asn C cvrs winner fuel with
+      -- "agap": the bits of the float64 handed to the real code (absent = the default 0)
+      let agap : Float ← match fld? a "agap" with
+        | some j => do pure (Float.ofBits (← asNat j).toUInt64)
+        | none => pure 0.0
+      match computeRaireAssertionsG (gapTest agap) asn C cvrs winner fuel with
       | Res.ok l => pure (jOk [("as", jArr (l.map asJson))])
       | Res.fuel => pure (Json.mkObj [("st", Json.str "fuel")])
       | Res.err e => pure (jErr (match e with
